@@ -718,10 +718,31 @@ OpResult Hist::run_op(const HOp& op0) {
       // self-contained marathons on one very large flat container (built and released inside the op; the model is not involved):
       //  a%4 = 0/1/2: growth of an indefinite array / map / chunked string over hundreds of thousands to millions of insertions
       //  a%4 = 3    : decode -> compare -> serialise -> release of a definite or indefinite array/map with a member count around 2^16, 2^18, 2^19
-      unsigned variant = (unsigned)(op.a % 4);
+      unsigned variant = (unsigned)(op.a % 5);
       uint64_t saved_max = sa_knobs().max_request; sa_set_max_request((uint64_t)256 << 20);
       uint64_t sig_before = sa_live_sig();
-      OpScope S(*this, op, variant == 3 ? "C03" : "C12");
+      OpScope S(*this, op, variant == 3 ? "C03" : variant == 4 ? "C04,C13" : "C12");
+      if (variant == 4) {
+        //  a%5 = 4: more than 2^32 references to one item (a history no container can hold, but a client taking and releasing
+        //  references in a loop can): the count must not wrap
+        cbor_item_t* x = cbor_build_uint8(1); cbor_item_t* holder = cbor_new_definite_array(1);
+        if (x && holder && cbor_array_push(holder, x)) {
+          const uint64_t N = ((uint64_t)1 << 32) - 1 + (op.c % 3);
+          for (uint64_t i = 0; i < N; i++) (void)cbor_incref(x);
+          R.executed = true;
+          if (cbor_refcount(x) != N + 2) fail("C04,C13", "refcount-differs-from-ownership-rules", S.ctx + fmt(": after %llu + 2 references the count reads %zu", (unsigned long long)N, cbor_refcount(x)));
+          else {
+            cbor_item_t* p = x; cbor_decref(&p);
+            if (p == nullptr) fail("C04,C13", "decref-null-contract", S.ctx + ": the item was released while 2^32 references remain");
+            else { for (uint64_t i = 1; i < N; i++) cbor_intermediate_decref(x); if (cbor_refcount(x) != 2) fail("C04,C13", "refcount-differs-from-ownership-rules", S.ctx + fmt(": count %zu after releasing all but two references", cbor_refcount(x))); }
+          }
+          stat_add("marathon_refcount");
+        }
+        if (!failed()) { if (holder) cbor_decref(&holder); if (x) cbor_decref(&x); }
+        if (!failed() && sa_live_sig() != sig_before) fail("C04,C13", "op-leaks-block", S.ctx + ": blocks remain after the reference marathon");
+        sa_set_max_request(saved_max);
+        break;
+      }
       if (variant < 3) {
         static const uint64_t NS[] = {262145, 300000, 524289, 1000000, 1048577, 2097153};
         uint64_t n = NS[op.c % 6]; if (variant == 1 && n > 1048577) n = 1048577;
